@@ -118,11 +118,13 @@ def main():
     accts_arg = ";".join("%s:%d:%d:%s:%s" % (vlib.hx(n.encode()), u, g, vlib.hx(h.encode()), "-" if o is None else str(o)) for n, u, g, h, o in L.accts)
     jobs = []
     setid_bad = []
+    images = []
     for ti in range(40 if ck.thorough else 14):
         table = gen_table(rng) if ti else [("+", b"", [b"catchall", b"20001", b"25001", b"/vh/c", b"-", b""]), ("+", b"listE", [b"lister", b"20002", b"25002", b"/vh/l", b"-", b""]), ("=", b"Joe", [b"joe", b"20003", b"25003", b"/vh/j", b"", b""])]
         if ti == 1: table = [t for t in table if t[1] != b""]        # no catch-all: falls through to qmail-getpw
         if L.write_assign(table) != 0:
             continue
+        images.append((open(os.path.join(L.home, "users/assign"), "rb").read(), open(os.path.join(L.home, "users/cdb"), "rb").read()))
         locs = gen_locals(rng, table) + ([b"liste-foo", b"listE-Foo", b"liste", b"JOE", b"joe"] if ti == 0 else [])
         reps, lg = L.deliver(locs)
         # no report at all within the time limit says nothing about the code: ask again, once, with a fresh qmail-lspawn
@@ -180,6 +182,39 @@ def main():
         elif (lk.startswith("F ") != sp.startswith("F ")) or (lk.startswith("F ") and lk != sp): mism.append(obj)
     for sb in setid_bad[:1]:
         fails.append(("lspawn:exec-before-privilege-drop", dict(kind="trace", **sb), 0))
+    # ---------------- from the text to the bytes: users/cdb as the real qmail-newu wrote it = cdb_make (newu text), byte for byte
+    #                  (Local/NewU.v parser + Base/Cdb.v writer); malformed texts are refused by both
+    tdrv = vlib.build_driver("TBL")
+    def real_newu(text):
+        open(os.path.join(L.home, "users/assign"), "wb").write(text)
+        pc = os.path.join(L.home, "users/cdb")
+        if os.path.exists(pc): os.remove(pc)
+        r_ = subprocess.run([rb.path("qmail-newu")], env=vlib.shim_env(L.home), stdout=subprocess.PIPE, stderr=subprocess.PIPE)
+        return (r_.returncode, open(pc, "rb").read() if os.path.exists(pc) else None)
+    def gen_text():
+        out = b""
+        for _ in range(rng.randint(0, 6)):
+            k_ = rng.choice([b"=", b"=", b"+", b"+", b"x"])
+            loc = rng.choice([b"joe", b"Ann", b"list-", b"", b"a.b", b"LIST-dev", b"\xc3\xa9", b"j", b"Zed-"])
+            f = [rng.choice([b"u", b"user1", b""]), b"%d" % rng.randint(1, 70000), b"100", rng.choice([b"/home/u", b""]), rng.choice([b"", b"-"]), rng.choice([b"", b"ext"])]
+            line = k_ + loc + b":" + b":".join(f) + b":" + rng.choice([b"", b"", b"", b"trailing"]) + b"\n"
+            m_ = rng.random()
+            if m_ < 0.04: line = line.replace(b"u", b"\0", 1)               # NUL in a line
+            elif m_ < 0.08: line = line[:-1]                                  # no newline
+            elif m_ < 0.12: line = b"\n"                                     # empty line
+            elif m_ < 0.16: line = k_ + loc + b":" + b":".join(f[:5]) + b"\n" # too few fields
+            elif m_ < 0.2: line = b":" + line                                # empty name part
+            out += line
+        return out + rng.choice([b".\n", b".\n", b".\n", b".\n", b".", b"", b". trailing\nmore\n"])
+    texts = [t for t, _ in images] + [gen_text() for _ in range(200 if ck.thorough else 60)]
+    reals = [(0, img) for _, img in images] + [real_newu(t) for t in texts[len(images):]]
+    mimg, _, _ = vlib.run_lines(tdrv, ["newu " + vlib.hx(t) for t in texts])
+    for t, (rc_, img), m_ in zip(texts, reals, mimg):
+        ck.evaluated(); ck.count("newu_images_" + ("refused" if rc_ else "written")); ck.nontrivial(("newu", t))
+        exp_ = "E" if rc_ != 0 else vlib.hx(img)
+        if exp_ != m_:
+            mism.append(dict(kind="input", component="qmail-newu", text=t.decode("latin1")[:400], real_exit=rc_, real_len=None if img is None else len(img), model=m_[:40],
+                             first_difference=None if img is None or m_ == "E" else next((i for i, (a_, b_) in enumerate(zip(vlib.hx(img), m_)) if a_ != b_), None)))
     # ---------------- corrupted / truncated constant database: defer, never misdirect
     table = [("=", b"u%d" % k, [b"user%d" % k, b"%d" % (21000 + k), b"%d" % (26000 + k), b"/vh/%d" % k, b"", b""]) for k in range(40)]
     L.write_assign(table)
@@ -190,10 +225,15 @@ def main():
         open(cdbp, "wb").write(good[:cut])
         locs = [b"u%d" % k for k in range(0, 40, 3)]
         reps, _ = L.deliver(locs)
-        for l, rep in zip(locs, reps):
-            ck.evaluated(); ck.count("truncated_cdb")
+        nug, _, _ = vlib.run_lines(tdrv, ["nug %s %s" % (vlib.hx(good[:cut]), vlib.hx(l)) for l in locs])
+        for l, rep, ng in zip(locs, reps, nug):
+            ck.evaluated(); ck.count("truncated_cdb"); ck.count("truncated_cdb_model_" + ng[:1])
             obs = parse_stub(rep)
             k = int(l[1:])
+            # the model's reading of the same damaged image: F = found, B = QLX_CDB (deferred), N = not in the database (qmail-getpw decides)
+            agree = (ng.startswith("F ") and obs is not None and obs["uid"] == 21000 + k) or (ng == "B" and rep.startswith(b"ZTrouble reading users/cdb")) or \
+                    (ng == "N" and not rep.startswith(b"ZTrouble reading users/cdb") and (obs is None or obs["uid"] != 21000 + k))
+            if not agree: mism.append(dict(kind="configuration", component="nughde_get on a truncated users/cdb", cdb_truncated_to=cut, of=len(good), local=l.decode(), report=rep.decode("latin1")[:200], model=ng[:80]))
             if obs is not None and (obs["uid"] != 21000 + k or obs["args"][1] != "user%d" % k):
                 fails.append(("lspawn:corrupt-cdb-misdirects", dict(kind="configuration", cdb_truncated_to=cut, of=len(good), local=l.decode(), report=rep.decode("latin1")[:200]), cut))
             elif obs is None and not rep.startswith(b"Z"):
